@@ -73,8 +73,8 @@ class Sentinel:
         return self.name
 
 
-class Boom(Exception):
-    pass
+class Boom(AssertionError):
+    """the selected method's own error (an AssertionError: the kind of error the library raises itself while building)"""
 
 
 NESTED_BODIES = {
@@ -241,6 +241,8 @@ def make_run(W, shape, known_active=None):
             except TypeError as e:
                 msg = str(e)
                 out = ("AMB",) if msg.startswith("Ambiguous resolution") else ("NOM",) if msg.startswith("No method") else ("TE", msg[:90])
+            except Exception as e:  # noqa: BLE001  anything else than the method's own error reached the caller
+                out = ("OTHER", type(e).__name__)
             rule = rule_for(nargs, list(kwnames), list(poskw))
             rec = dict(call=f"f({nargs} positional, kw={sorted(kwargs)})", raising=bool(raising), outcome=out[0])
             if out[0] in ("ret", "boom"):
@@ -268,6 +270,11 @@ def make_run(W, shape, known_active=None):
                 known_c.append(conj[-1])
             elif out[0] == "AMB":
                 conj.append(z3.BoolVal(not LOG))
+                known_c.append(conj[-1])
+            elif out[0] == "OTHER":
+                # neither the method's own result / error nor one of the dispatcher's rejections
+                rec["unexpected_exception"] = out[1]
+                conj.append(z3.BoolVal(False))
                 known_c.append(conj[-1])
             else:
                 # the dispatcher's own rejection: only legitimate when no method is applicable to this call shape
